@@ -66,6 +66,13 @@ def probe_mi_unrelated():
     return Registry('mi_unrelated', direct, [(2, [0, 4])], [[[1, 4], [2, 5]]])
 
 
+def probe_nontransitive():
+    # T; B:{T}; A:{B}; C:{T}; W:{A,C}.  a=(A,C) beats b=(B,A) (position 1), b beats c=(C,B) (position 2), a and c are incomparable:
+    # no definition is more specific than all the others for the call (W,W)
+    direct = [[], [0], [1], [0], [2, 3]]
+    return Registry('nontransitive', direct, [(2, [0, 0])], [[[2, 3], [1, 2], [3, 1]]])
+
+
 def probe_next():
     # C03: (A,A), (A,Dog), (Dog,A), (Dog,Cat) over Animal <- Dog, Cat
     return Registry('tree3_next', LATTICES['tree3'], [(2, [0, 0]), (2, [0, 0])],
@@ -92,7 +99,7 @@ def tag(reg, i):
 
 
 def base_regs(tier):
-    regs = [probe_diamond(), probe_mi_unrelated(), probe_next(), probe_arity3(), probe_c06(), probe_three_roots()]
+    regs = [probe_diamond(), probe_mi_unrelated(), probe_next(), probe_arity3(), probe_c06(), probe_three_roots(), probe_nontransitive()]
     regs += family(tier)
     if tier == 'thorough':
         regs += family(tier, shapes=(6, 4, 8, 3), per=1, lattices=['chain3', 'tree3', 'diamond'], nm=1, max_defs=4)
@@ -134,13 +141,13 @@ def c04_queries(tier):
 
 def c06_queries(tier):
     rnd = random.Random(seed() * 7 + 3)
-    base = [probe_c06(), probe_diamond(), probe_mi_unrelated(), probe_next()] + family(tier, per=1)
+    base = [probe_c06(), probe_nontransitive(), probe_diamond(), probe_mi_unrelated(), probe_next()] + family(tier, per=1)
     qs = []
     nperm = 3 if tier == 'quick' else 8
     for i, r in enumerate(base):
-        k = nperm if i < 4 else (1 if tier == 'quick' else 3)
+        k = nperm if i < 5 else (1 if tier == 'quick' else 3)
         import itertools
-        if r.name == 'probe_c06':
+        if r.name in ('probe_c06', 'nontransitive'):
             # all 6 orders of the three definitions
             for j, o in enumerate(itertools.permutations(range(3))):
                 pr = Registry(r.name, r.direct, r.methods, r.defs, r.presentation, None, None, [list(o)])
@@ -175,7 +182,7 @@ def c07_queries(tier):
     regs = [probe_diamond(), probe_next(), probe_c04()] + family(tier, per=1, lattices=['tree3', 'diamond', 'vee'] if tier == 'quick' else None)
     return [_q('C07', r, 'history_' + tag(r, i), {'PRIOR_GARBAGE': 24, 'TWO_UPDATES': 1},
                symbolic='state left by earlier updates: dispatch data (24 words), static v-table pointers, slots/strides, next pointers, vptrs; argument classes')
-            for i, r in enumerate(regs)]
+            for i, r in enumerate(regs)] + deferred_queries('C07', tier)
 
 
 def c10_queries(tier):
@@ -187,7 +194,7 @@ def c10_queries(tier):
                      symbolic='argument classes and which of its two ids each argument object carries'))
         sparse = Registry(r.name, r.direct, r.methods, r.defs, r.presentation, ids=[3 + 4 * k for k in range(len(r.direct))])
         qs.append(_q('C10', sparse, 'custom_ids_' + tag(r, i), desc='custom integer ids 3,7,11,... (identity projection)'))
-    return qs
+    return qs + deferred_queries('C10', tier)
 
 
 def c15_queries(tier):
@@ -241,3 +248,15 @@ MANIFESTS = {
               'concrete_* fields (as zero / non-zero) must equal an oracle enumeration of all acceptable class tuples, and cells must equal the '
               'number of multi-method dispatch cells built.'),
 }
+
+
+def deferred_queries(pid, tier):
+    qs = []
+    for ar in ((1, 2) if tier == 'quick' else (1, 2, 3)):
+        for upd in (1, 2, 3) if tier == 'thorough' else (1, 2):
+            qs.append(Query('deferred_ids_arity%d_updates%d' % (ar, upd), 'c07_deferred.cpp', {'ARITY': ar, 'UPDATES': upd}, unwind=10, models=True,
+                            checks='none', timeout=600,
+                            desc='resolve_static_type_ids: every deferred id resolved exactly once across %d update(s), arity %d, one class without bases' % (upd, ar),
+                            symbolic='which class each method / definition parameter names',
+                            bounds={'classes': 3, 'definitions': 2, 'arity': ar, 'updates': upd}))
+    return qs
